@@ -215,6 +215,10 @@ pub fn pal_text(r: &mut Rng) -> String {
         let (a, b) = *r.pick(&COLLIDING_TEXTS);
         return if r.coin() { a.to_string() } else { b.to_string() };
     }
+    if r.chance(1, 24) {
+        // media types with parameters, multi-byte characters next to the separators
+        return r.pick(&["text/x-caf\u{e9}; charset=utf-8", "a/b;c", "a/\u{2603};q=1", "\u{e9}/\u{e9};\u{e9}=\u{e9}", "a/b ; c = d", "text/plain;charset=utf-8", ";", "a;b/c", "a/b;c/d", "\u{10151};/"]).to_string();
+    }
     if r.chance(1, 20) {
         let base = *r.pick(&["a/b", "text/plain", "x", "alg", "k"]);
         let c = *r.pick(&EDGE_CHARS);
@@ -237,7 +241,7 @@ pub fn pal_text(r: &mut Rng) -> String {
         }
         2 => {
             let n = r.below(5);
-            (0..n).map(|_| *r.pick(&['a', 'b', '/', ' ', '\u{e9}', '\u{2003}', 'z', '0'])).collect()
+            (0..n).map(|_| *r.pick(&['a', 'b', '/', ' ', '\u{e9}', '\u{2003}', 'z', '0', ';', '=', 'A'])).collect()
         }
         _ => r.pick(&TEXTS).to_string(),
     }
@@ -278,7 +282,7 @@ pub fn pal_label(r: &mut Rng) -> MLabel {
             0 => r.range(0, 12),
             1 => r.range(-12, -1),
             2 => *r.pick(&[23, 24, 255, 256, 65535, 65536, -24, -25, -256, -257, -65536, -65537, i64::MAX, i64::MIN, i64::MAX - 1, i64::MIN + 1, 1 << 32, -(1 << 32) - 1]),
-            3 => *r.pick(&[32, 33, 34, 35, 38, 39, 40, 256, 257, -260, -259, -258, -70000, -65538]),
+            3 => *r.pick(&[32, 33, 34, 35, 38, 39, 40, 256, 257, -260, -259, -258, -70000, -65538, -20, -21, -22, -23, -24, -25, -26, -27]),
             _ => pal_i64(r),
         })
     }
@@ -423,6 +427,16 @@ pub fn text_twin(i: i64) -> Option<String> {
     String::from_utf8(rcbor::det(&Item::int(i))).ok()
 }
 
+/// an integer label and the 8-character text whose bytes are its big-endian (or little-endian)
+/// representation: a detector keyed on raw bytes without the label's type confuses them
+pub fn byte_twins(r: &mut Rng) -> (MLabel, MLabel) {
+    let t: String = (0..8).map(|_| *r.pick(&['k', 'e', 'y', 'u', 's', 'a', 'g', 'x', '0', 'Z'])).collect();
+    let mut b = [0u8; 8];
+    b.copy_from_slice(t.as_bytes());
+    let i = if r.coin() { i64::from_be_bytes(b) } else { i64::from_le_bytes(b) };
+    (MLabel::Int(i), MLabel::Text(t))
+}
+
 fn extras(r: &mut Rng, n: usize, forbidden: &dyn Fn(&MLabel) -> bool, label: &mut dyn FnMut(&mut Rng) -> MLabel) -> Vec<(MLabel, Item)> {
     let mut out: Vec<(MLabel, Item)> = Vec::new();
     if n >= 2 && r.chance(1, 12) {
@@ -549,6 +563,15 @@ pub fn gen_header(r: &mut Rng, o: &GenOpts, depth: u32) -> MHeader {
         h.crit = (0..n).map(|k| if r.chance(1, 8) { MLabel::Text(format!("c{}", k % 5)) } else { MLabel::Int(regs[k % regs.len()]) }).collect();
     }
     repeat_neighbour(r, &mut h.csigs);
+    if r.chance(1, 24) {
+        let (a, b) = byte_twins(r);
+        if !h.rest.iter().any(|(l, _)| *l == a || *l == b) {
+            let at = r.below(h.rest.len() + 1);
+            h.rest.insert(at, (b, Item::int(1)));
+            let at = r.below(h.rest.len() + 1);
+            h.rest.insert(at, (a, Item::int(2)));
+        }
+    }
     // `crit` is meant to list labels that are present in the same map: sometimes it does, including text
     // labels and registered labels among the extras (only labels that a crit array may carry)
     if r.chance(1, 10) {
@@ -772,6 +795,15 @@ pub fn gen_key(r: &mut Rng) -> MKey {
     if let Some(n) = wide {
         key.params = wide_extras(r, n, 1);
     }
+    if r.chance(1, 24) {
+        let (a, b) = byte_twins(r);
+        if !key.params.iter().any(|(l, _)| *l == a || *l == b) {
+            let at = r.below(key.params.len() + 1);
+            key.params.insert(at, (a, Item::int(1)));
+            let at = r.below(key.params.len() + 1);
+            key.params.insert(at, (b, Item::int(2)));
+        }
+    }
     key
 }
 
@@ -851,6 +883,14 @@ pub fn gen_claims(r: &mut Rng) -> MClaims {
         let n = wide_n(r);
         c.rest = wide_extras(r, n, 2);
     }
+    if r.chance(1, 12) && !c.rest.iter().any(|(l, _)| *l == MLabel::Int(8)) {
+        // a confirmation claim the way RFC 8747 shapes it (the claims set keeps it as it is, whatever
+        // members it combines)
+        let key = enc_key(&gen_key_plain(r, vec![], 1));
+        let members: Vec<(Item, Item)> = [(1i64, key), (2, Item::Bytes(small_bytes(r))), (3, Item::Bytes(vec![7, 7]))].into_iter().filter(|_| r.coin()).map(|(k, v)| (Item::int(k), v)).collect();
+        let at = r.below(c.rest.len() + 1);
+        c.rest.insert(at, (MLabel::Int(8), Item::Map(members)));
+    }
     c
 }
 
@@ -923,6 +963,18 @@ fn restyle_repeats_rcp(r: &mut Rng, o: &GenOpts, v: &mut Vec<MRecipient>) {
     }
 }
 
+/// two neighbouring elements that differ only in the sign of a floating-point zero inside an extra
+/// parameter: equal under `==` of parsed values, different items
+fn zero_twin_headers(r: &mut Rng, a: &mut MHeader, b: &mut MHeader) {
+    let l = MLabel::Int(-70003);
+    a.rest.retain(|(x, _)| *x != l);
+    *b = a.clone();
+    let at = r.below(a.rest.len() + 1);
+    let (za, zb) = if r.coin() { (0.0, -0.0) } else { (-0.0, 0.0) };
+    a.rest.insert(at, (l.clone(), Item::Float(za)));
+    b.rest.insert(at, (l, Item::Float(zb)));
+}
+
 /// a signer / recipient sometimes repeats parameters of the enclosing layer (same algorithm, same IV,
 /// same key id), in either bucket: layers are independent of each other
 fn echo_outer(r: &mut Rng, o: &GenOpts, outer_prot: &MProt, outer_unprot: &MHeader, prot: &mut MProt, unprot: &mut MHeader) {
@@ -956,6 +1008,14 @@ fn gen_recipient_list(r: &mut Rng, o: &GenOpts, n: usize) -> Vec<MRecipient> {
     };
     repeat_neighbour(r, &mut v);
     restyle_repeats_rcp(r, o, &mut v);
+    if v.len() >= 2 && r.chance(1, 16) {
+        let i = r.below(v.len() - 1);
+        let mut first = v[i].clone();
+        let mut second = first.clone();
+        zero_twin_headers(r, &mut first.unprot, &mut second.unprot);
+        v[i] = first;
+        v[i + 1] = second;
+    }
     v
 }
 
@@ -978,6 +1038,14 @@ pub fn gen_mval(r: &mut Rng, ty: Ty, o: &GenOpts) -> MVal {
             };
             repeat_neighbour(r, &mut sigs);
             restyle_repeats_sig(r, o, &mut sigs);
+            if sigs.len() >= 2 && r.chance(1, 16) {
+                let i = r.below(sigs.len() - 1);
+                let mut first = sigs[i].clone();
+                let mut second = first.clone();
+                zero_twin_headers(r, &mut first.unprot, &mut second.unprot);
+                sigs[i] = first;
+                sigs[i + 1] = second;
+            }
             let (prot, unprot) = (gen_prot(r, o, 0), gen_header(r, o, 0));
             if let Some(s0) = sigs.first_mut() {
                 let (mut p, mut u) = (s0.prot.clone(), s0.unprot.clone());
@@ -1034,6 +1102,17 @@ pub fn gen_mval(r: &mut Rng, ty: Ty, o: &GenOpts) -> MVal {
             let n = if r.chance(1, 48) { wide_n(r).min(66) } else { r.below(4) };
             let mut keys: Vec<MKey> = (0..n).map(|_| gen_key(r)).collect();
             repeat_neighbour(r, &mut keys);
+            if keys.len() >= 2 && r.chance(1, 12) {
+                let i = r.below(keys.len() - 1);
+                let mut first = keys[i].clone();
+                first.params.retain(|(l, _)| *l != MLabel::Int(-70003));
+                let mut second = first.clone();
+                let (za, zb) = if r.coin() { (0.0, -0.0) } else { (-0.0, 0.0) };
+                first.params.push((MLabel::Int(-70003), Item::Float(za)));
+                second.params.push((MLabel::Int(-70003), Item::Float(zb)));
+                keys[i] = first;
+                keys[i + 1] = second;
+            }
             MVal::KeySet(keys)
         }
         Ty::Party => MVal::Party(gen_party(r)),
@@ -1348,6 +1427,15 @@ pub fn enum_faults(it: &Item) -> Vec<(String, Item)> {
                     let mut a4 = a.clone();
                     a4.insert(0, Item::Bytes(vec![]));
                     variants.push(Item::Array(a4));
+                    // the array followed by a copy of itself, once and twice (a flat run of what should
+                    // be separate elements)
+                    if !a.is_empty() && a.len() <= 6 {
+                        let mut a5 = a.clone();
+                        a5.extend(a.iter().cloned());
+                        variants.push(Item::Array(a5.clone()));
+                        a5.extend(a.iter().cloned());
+                        variants.push(Item::Array(a5));
+                    }
                 }
                 Item::Bytes(b) if !b.is_empty() => {
                     variants.push(Item::Bytes(vec![]));
